@@ -215,7 +215,10 @@ def _apply_pipeline_config_override(
     if min_continues is None:
         return
 
-    pipeline_config = ensure_config_section(orchestrator, "collection_pipeline")
+    # Override the section the linter will read, so that its other settings stay in effect
+    names = ("collection_pipeline", "collection-pipeline", "pipeline")
+    section = next((n for n in names if isinstance(orchestrator.config.get(n), dict)), names[0])
+    pipeline_config = ensure_config_section(orchestrator, section)
     set_config_value(pipeline_config, "min_continues", min_continues, verbose)
 
 
